@@ -313,3 +313,33 @@ def add_sensors(spec, seed, n, emphasis="all", refp=0.5, exclude_kinds=()):
     out.append(s)
   spec["sensors"] = list(spec.get("sensors", [])) + out
   return out
+
+
+_FRAME_REF_KINDS = ["framepos", "framequat", "framexaxis", "frameyaxis", "framezaxis", "framelinvel", "frameangvel"]
+
+
+def add_frame_matrix(spec, seed, k=3):
+  """Appends k frame sensors with a reference frame whose (kind, objtype, reftype) walks systematically through the 7 x 5 x 5 matrix (index derived
+  from the seed), so that every combination is exercised several times per run instead of with probability ~1/1000 per drawn sensor."""
+  r = R([int(seed), 0xF7A3])
+  inv = Inventory(spec)
+  pools = dict(body=inv.bodies, xbody=inv.bodies, geom=inv.geoms, site=inv.sites, camera=inv.cameras)
+  out = []
+  ncomb = len(_FRAME_REF_KINDS) * len(FRAME_OBJ) * len(FRAME_OBJ)
+  for i in range(k):
+    idx = (int(seed) * k + i) % ncomb
+    kind = _FRAME_REF_KINDS[idx % len(_FRAME_REF_KINDS)]
+    ot = FRAME_OBJ[(idx // len(_FRAME_REF_KINDS)) % len(FRAME_OBJ)]
+    rt = FRAME_OBJ[idx // (len(_FRAME_REF_KINDS) * len(FRAME_OBJ))]
+    if not pools[ot] or not pools[rt]:
+      continue
+    on = r.ch(pools[ot])
+    cand = [n for n in pools[rt] if (rt, n) != (ot, on)]
+    if not cand:
+      continue
+    s = dict(kind=kind, objtype=ot, objname=on, reftype=rt, refname=r.ch(cand), name=f"fm{i}")
+    if kind in ("framepos", "framelinvel", "frameangvel"):
+      _cutoff(r, s, small=(0.05, 1.0), p=0.3)
+    out.append(s)
+  spec["sensors"] = list(spec.get("sensors", [])) + out
+  return out
